@@ -104,8 +104,10 @@ def _table():
     a(dict(name="ElementQuadRT1", kind="quad", family="hdiv", conforming="normal", complete=0, vector_valued=True))
     a(dict(name="ElementQuadN1", kind="quad", family="hcurl", conforming="tangential", complete=0,
            vector_valued=True))
+    # Q2 in *global* coordinates: its restriction to a slanted edge has degree 4, so it is conforming (and equal to
+    # Q2) on axis-parallel rectangles only
     a(dict(name="ElementQuad2G", kind="quad", family="global", conforming="value", complete=2, tensor_complete=2,
-           nodal=True, pou="all", mesh_req="affine"))
+           nodal=True, pou="all", mesh_req="axis-parallel"))
     a(dict(name="ElementQuadBFS", kind="quad", family="global", conforming="value", c1=True, complete=3,
            tensor_complete=3, pou="u-named", mesh_req="axis-parallel", hess=True))
     # ---- tetrahedron
